@@ -991,7 +991,7 @@ class Engine(CondMixin, Interp):
         env = self.P.local_env(fi)
         fresh = _fresh_locals(fi.node)
         for n in ast.walk(fi.node):
-            if isinstance(n, (ast.Raise, ast.Assert)):
+            if isinstance(n, ast.Assert) or (isinstance(n, ast.Raise) and "NotImplementedError" not in norm(n)):
                 r = True
             elif isinstance(n, (ast.Assign, ast.AugAssign, ast.Delete)):
                 tg = n.targets if isinstance(n, (ast.Assign, ast.Delete)) else [n.target]
@@ -1013,8 +1013,12 @@ class Engine(CondMixin, Interp):
                         fr = self.flags(init, (*_stack, fi.qname))
                         r, a = r or fr[0], a or fr[2]
                 elif tgt and tgt[0] == "func":
-                    fr = self.flags(tgt[1][0], (*_stack, fi.qname))
-                    r, m, a = r or fr[0], m or fr[1], a or fr[2]
+                    cands = [tgt[1][0]]
+                    if tgt[1][0].cls is not None:  # dynamic dispatch: overriding definitions too
+                        cands += self.P.overriders(tgt[1][0].cls.qname, tgt[1][0].name)
+                    for cand in cands:
+                        fr = self.flags(cand, (*_stack, fi.qname))
+                        r, m, a = r or fr[0], m or fr[1], a or fr[2]
                 elif isinstance(n.func, ast.Attribute) and n.func.attr in MUTATOR_METHODS:
                     if _root_name(n.func.value) not in fresh:
                         m = True
@@ -1035,9 +1039,9 @@ class Engine(CondMixin, Interp):
                 fi.name in QUERY_API or fi.name == "notify_annotators"
             ):
                 return False
-            if self.P.is_subclass(fi.cls.qname, "GraphAnnotator") or self.P.is_subclass(
-                fi.cls.qname, "AnnotatorRegistry"
-            ):
+            if self.P.is_subclass(fi.cls.qname, "GraphAnnotator"):
+                return False
+            if self.P.is_subclass(fi.cls.qname, "AnnotatorRegistry") and fi.name in ("update", "compute"):
                 return False
         return any(self.flags(fi))
 
@@ -1542,6 +1546,7 @@ def state_key(st: PState):
         tuple(sorted(d.dout.items())),
         d.epoch,
         d.dirty,
+        (d.dirty_at.ctx[:1], d.dirty_at.name if not d.dirty_at.ctx else "") if d.dirty_at is not None else None,
         d.ret,
         tuple(sorted(st.conds.items())),
         tuple(sorted(d.timeeq.items())),
@@ -1727,10 +1732,10 @@ def _engine_call_effect(self: Engine, st: PState, c: ast.Call) -> None:
         if r or m or a_:
             key = fi.short
             self.opaque_calls[key] = self.opaque_calls.get(key, 0) + 1
-            if m:
-                self.mutation(st, f"call:{fi.short}", {}, c)
             if r:
                 self.emit_event(st, "mayraise", fi.short, {"args": ", ".join(self.args_terms(c, d))}, c)
+            if m:
+                self.mutation(st, f"call:{fi.short}", {}, c)
         return
     if tgt and tgt[0] == "class":
         cls = tgt[1]
